@@ -159,41 +159,45 @@ Record st := mk_st {
   s_gcols : list val; s_having : list val; s_group : bool;
   s_ocols : list val; s_oexpr : option val; s_order : bool;
   s_limit : option (option Z * Z);
-  s_onconf : option val
+  s_onconf : option val;
+  s_mpk : option val                  (* non-zero primary key of the value given to Model() *)
 }.
 Definition st0 (ti : tinfo) : st :=
-  mk_st ti None [] [] None None false [] [] [] false [] None false None None.
+  mk_st ti None [] [] None None false [] [] [] false [] None false None None None.
 
 Definition set_where (s : st) (w : list val) : st :=
   mk_st (s_ti s) (s_texpr s) w (s_selects s) (s_selexpr s) (s_pluck s) (s_distinct s) (s_joins s)
-        (s_gcols s) (s_having s) (s_group s) (s_ocols s) (s_oexpr s) (s_order s) (s_limit s) (s_onconf s).
+        (s_gcols s) (s_having s) (s_group s) (s_ocols s) (s_oexpr s) (s_order s) (s_limit s) (s_onconf s) (s_mpk s).
 Definition set_select (s : st) (sel : list string) (x : option val) : st :=
   mk_st (s_ti s) (s_texpr s) (s_where s) sel x (s_pluck s) (s_distinct s) (s_joins s)
-        (s_gcols s) (s_having s) (s_group s) (s_ocols s) (s_oexpr s) (s_order s) (s_limit s) (s_onconf s).
+        (s_gcols s) (s_having s) (s_group s) (s_ocols s) (s_oexpr s) (s_order s) (s_limit s) (s_onconf s) (s_mpk s).
 Definition set_pluck (s : st) (p : option val) : st :=
   mk_st (s_ti s) (s_texpr s) (s_where s) (s_selects s) (s_selexpr s) p (s_distinct s) (s_joins s)
-        (s_gcols s) (s_having s) (s_group s) (s_ocols s) (s_oexpr s) (s_order s) (s_limit s) (s_onconf s).
+        (s_gcols s) (s_having s) (s_group s) (s_ocols s) (s_oexpr s) (s_order s) (s_limit s) (s_onconf s) (s_mpk s).
 Definition set_table (s : st) (ti : tinfo) (x : option val) : st :=
   mk_st ti x (s_where s) (s_selects s) (s_selexpr s) (s_pluck s) (s_distinct s) (s_joins s)
-        (s_gcols s) (s_having s) (s_group s) (s_ocols s) (s_oexpr s) (s_order s) (s_limit s) (s_onconf s).
+        (s_gcols s) (s_having s) (s_group s) (s_ocols s) (s_oexpr s) (s_order s) (s_limit s) (s_onconf s) (s_mpk s).
 Definition set_distinct (s : st) : st :=
   mk_st (s_ti s) (s_texpr s) (s_where s) (s_selects s) (s_selexpr s) (s_pluck s) true (s_joins s)
-        (s_gcols s) (s_having s) (s_group s) (s_ocols s) (s_oexpr s) (s_order s) (s_limit s) (s_onconf s).
+        (s_gcols s) (s_having s) (s_group s) (s_ocols s) (s_oexpr s) (s_order s) (s_limit s) (s_onconf s) (s_mpk s).
 Definition set_joins (s : st) (j : list val) : st :=
   mk_st (s_ti s) (s_texpr s) (s_where s) (s_selects s) (s_selexpr s) (s_pluck s) (s_distinct s) j
-        (s_gcols s) (s_having s) (s_group s) (s_ocols s) (s_oexpr s) (s_order s) (s_limit s) (s_onconf s).
+        (s_gcols s) (s_having s) (s_group s) (s_ocols s) (s_oexpr s) (s_order s) (s_limit s) (s_onconf s) (s_mpk s).
 Definition set_group (s : st) (c h : list val) : st :=
   mk_st (s_ti s) (s_texpr s) (s_where s) (s_selects s) (s_selexpr s) (s_pluck s) (s_distinct s) (s_joins s)
-        c h true (s_ocols s) (s_oexpr s) (s_order s) (s_limit s) (s_onconf s).
+        c h true (s_ocols s) (s_oexpr s) (s_order s) (s_limit s) (s_onconf s) (s_mpk s).
 Definition set_order (s : st) (c : list val) (x : option val) (present : bool) : st :=
   mk_st (s_ti s) (s_texpr s) (s_where s) (s_selects s) (s_selexpr s) (s_pluck s) (s_distinct s) (s_joins s)
-        (s_gcols s) (s_having s) (s_group s) c x present (s_limit s) (s_onconf s).
+        (s_gcols s) (s_having s) (s_group s) c x present (s_limit s) (s_onconf s) (s_mpk s).
 Definition set_limit (s : st) (l : option (option Z * Z)) : st :=
   mk_st (s_ti s) (s_texpr s) (s_where s) (s_selects s) (s_selexpr s) (s_pluck s) (s_distinct s) (s_joins s)
-        (s_gcols s) (s_having s) (s_group s) (s_ocols s) (s_oexpr s) (s_order s) l (s_onconf s).
+        (s_gcols s) (s_having s) (s_group s) (s_ocols s) (s_oexpr s) (s_order s) l (s_onconf s) (s_mpk s).
+Definition set_mpk (s : st) (k : option val) : st :=
+  mk_st (s_ti s) (s_texpr s) (s_where s) (s_selects s) (s_selexpr s) (s_pluck s) (s_distinct s) (s_joins s)
+        (s_gcols s) (s_having s) (s_group s) (s_ocols s) (s_oexpr s) (s_order s) (s_limit s) (s_onconf s) k.
 Definition set_onconf (s : st) (o : option val) : st :=
   mk_st (s_ti s) (s_texpr s) (s_where s) (s_selects s) (s_selexpr s) (s_pluck s) (s_distinct s) (s_joins s)
-        (s_gcols s) (s_having s) (s_group s) (s_ocols s) (s_oexpr s) (s_order s) (s_limit s) o.
+        (s_gcols s) (s_having s) (s_group s) (s_ocols s) (s_oexpr s) (s_order s) (s_limit s) o (s_mpk s).
 
 (* Limit.MergeClause ([new] is the receiver) *)
 Definition limit_merge (new : option Z * Z) (old : option (option Z * Z)) : option Z * Z :=
@@ -259,6 +263,7 @@ Definition apply_call (s : st) (c : val) : st :=
   | KLimit n => set_limit s (Some (limit_merge (Some n, 0%Z) (s_limit s)))
   | KOffset n => set_limit s (Some (limit_merge (None, n) (s_limit s)))
   | KDistinct => set_distinct s
+  | VField _ false v => set_mpk s (Some v)        (* Model(&Item{ID: v}) *)
   | KClauses l =>
     let s1 := fold_left (fun acc x => match x with
                                       | VWhere w => set_where acc (s_where acc ++ w)
@@ -356,6 +361,8 @@ Inductive fin :=
 | FCreateSlice (rows : list val)         (* VSeq "" fields per record *)
 | FCreateMap (kv : list val)             (* VNamed entries, keys sorted *)
 | FCreateMaps (rows : list val)          (* VNameSrc per map *)
+| FSaveStruct (fields : list val)        (* Save(&record) with a non-zero key: VField per column *)
+| FSaveSlice (rows : list val)           (* Save(&records): insert, on conflict update all *)
 | FRaw (sql : string) (args : list val)  (* Raw(sql, args...).Scan / Rows *)
 | FExec (sql : string) (args : list val).
 
@@ -381,7 +388,14 @@ Definition set_val (assigns : list (string * val)) : val :=
 Definition assign_value (v : val) : val :=
   match v with VSubN _ _ _ | VRawSub _ _ => VList LIface [v] | _ => v end.
 
-Definition update_stmt (s : st) (assigns : list (string * val)) : val :=
+(* ConvertToAssignments: the non-zero key of the Model value becomes a condition, after the chain's *)
+Definition with_model_key (s : st) : st :=
+  match s_mpk s, t_pk (s_ti s) with
+  | Some v, Some pk => set_where s (s_where s ++ [VCmp OEq (VQStr pk) v])
+  | _, _ => s
+  end.
+Definition update_stmt (s0 : st) (assigns : list (string * val)) : val :=
+  let s := with_model_key s0 in
   VSeq " " ([vseq0 [VText "UPDATE "; table_val s]; vseq0 [VText "SET "; set_val assigns]] ++ where_clause s).
 
 (* Values.Build *)
@@ -449,6 +463,29 @@ Definition map_row (ti : tinfo) (cols : list string) (r : val) : list val :=
   | _ => []
   end.
 
+(* ConvertToCreateValues over a slice: when some record has its key set, the key column is added and
+   the other records get the dialect's default expression (DEFAULT; NULL for SQLite's auto-increment).
+   [upd_all]: OnConflict{UpdateAll} as Save adds it: every created non-key column from "excluded" *)
+Definition default_expr (inl : bool) : val := VText (if inl then "NULL" else "DEFAULT").
+Definition slice_create (inl : bool) (s : st) (rows : list val) (upd_all : bool) : val :=
+  let ti := s_ti s in
+  match rows with
+  | VSeq _ f0 :: _ =>
+    let any_pk := existsb (fun r => match r with VSeq _ fs => nonempty (pk_set ti fs) | _ => false end) rows in
+    let cols := create_cols ti f0 in
+    let s' := if upd_all
+              then set_onconf s (Some (VOnConflict (match t_pk ti with Some p => [VCol "" p "" false] | None => [] end) false
+                                         (map (fun c => VNamed c (VCol "excluded" c "" false)) cols) []))
+              else s in
+    create_stmt s' (cols ++ (match any_pk, t_pk ti with true, Some p => [p] | _, _ => [] end))
+      (map (fun r => match r with
+                     | VSeq _ fs => create_row ti fs ++
+                                    (if any_pk then match pk_set ti fs with [] => [default_expr inl] | k => k end else [])
+                     | _ => []
+                     end) rows)
+  | _ => VText ""
+  end.
+
 Definition raw_val (sql : string) (args : list val) : val :=
   if contains_c "@" (s2l sql) then VNamedExpr sql args else VExpr false sql args.
 
@@ -501,24 +538,30 @@ Definition stmt_of (inl : bool) (ti : tinfo) (chain : list val) (f : fin) : val 
   | FUpdatesStruct fields =>
     update_stmt s (map (fun f => (field_name f, field_value f)) (filter (fun f => negb (field_zero f)) fields))
   | FDelete conds =>
-    let s1 := inline_conds s conds in
+    let s0 := inline_conds s conds in
+    (* callbacks/delete.go: the key of the Model value, as IN over the table's key column *)
+    let s1 := match s_mpk s0, t_pk ti' with
+              | Some v, Some pk => set_where s0 (s_where s0 ++ [VIn (VCol (t_table ti') pk "" false) [v]])
+              | _, _ => s0
+              end in
     VSeq " " ([VText "DELETE"; vseq0 [VText "FROM "; table_val s1]] ++ where_clause s1)
   | FCreateStruct fields =>
     let pk := pk_set ti' fields in
     create_stmt s (create_cols ti' fields ++ (match pk, t_pk ti' with _ :: _, Some p => [p] | _, _ => [] end))
                 [create_row ti' fields ++ pk]
-  | FCreateSlice rows =>
-    match rows with
-    | VSeq _ f0 :: _ =>
-      create_stmt s (create_cols ti' f0)
-                  (map (fun r => match r with VSeq _ fs => create_row ti' fs | _ => [] end) rows)
-    | _ => VText ""
-    end
+  | FCreateSlice rows => slice_create inl s rows false
   | FCreateMap kv =>
     create_stmt s (map (fun e => col_of ti' (field_name e)) kv) [map field_value kv]
   | FCreateMaps rows =>
     let cols := sorted_keys rows ti' in
     create_stmt s cols (map (map_row ti' cols) rows)
+  | FSaveStruct fields =>
+    (* Save with a key: Select("*") update of every column; the key becomes the condition *)
+    let keyc := map (fun f => VCmp OEq (VQStr (field_name f)) (field_value f))
+                    (filter (fun f => is_pk ti' (field_name f)) fields) in
+    update_stmt (set_where s (s_where s ++ keyc))
+      (map (fun f => (field_name f, field_value f)) (filter (fun f => negb (is_pk ti' (field_name f))) fields))
+  | FSaveSlice rows => slice_create inl s rows true
   | FRaw sql args => raw_val sql args
   | FExec sql args => raw_val sql args
   end.
@@ -575,6 +618,8 @@ Definition norm_fin (inl : bool) (f : fin) : fin :=
   | FCreateSlice rows => FCreateSlice (map n rows)
   | FCreateMap kv => FCreateMap (map n kv)
   | FCreateMaps rows => FCreateMaps (map n rows)
+  | FSaveStruct fs => FSaveStruct (map n fs)
+  | FSaveSlice rows => FSaveSlice (map n rows)
   | FRaw s a => FRaw s (map n a)
   | FExec s a => FExec s (map n a)
   end.
